@@ -279,9 +279,11 @@ impl Property for C05 {
     fn gen_plan(&self, seed: u64, tier: Tier) -> Value {
         // cluster tier (c05_cluster.rs): one seed in a hundred boots the real main process and real workers
         if Prng::derive(seed, "c05/cluster-tier").below(100) == 0 { return super::c05_cluster::generate(seed, tier); }
+        if let Some(p) = super::hubcfg::dispatch_gen("C05", seed, tier) { return p; } // hubcfg: main-process tier
         generate(seed, tier)
     }
     fn run_plan(&self, plan: &Value) -> RunReport {
+        if let Some(r) = super::hubcfg::dispatch_run(plan) { return r; } // hubcfg
         if plan["family"].as_str().unwrap_or("").starts_with("cluster_bootstrap") { return super::c05_cluster::run(plan, false).0; }
         let ops = match cfggen::ops_from_value(&plan["ops"]) { Ok(o) => o, Err(e) => return RunReport { harness_error: Some(format!("bad plan: {e}")), ..Default::default() } };
         let mut snaps: Vec<usize> = plan["snaps"].as_array().map(|a| a.iter().filter_map(|x| x.as_u64()).map(|x| x as usize).collect()).unwrap_or_default();
@@ -304,6 +306,7 @@ impl Property for C05 {
         rep
     }
     fn shrink(&self, plan: &Value) -> Vec<Value> {
+        if let Some(c) = super::hubcfg::dispatch_shrink(plan) { return c; } // hubcfg
         if plan["family"].as_str().unwrap_or("").starts_with("cluster_bootstrap") { return super::c05_cluster::shrink(plan); }
         let mut out: Vec<Value> = Vec::new();
         // fewer snapshots first
@@ -312,6 +315,7 @@ impl Property for C05 {
         out
     }
     fn debug_plan(&self, plan: &Value) -> String {
+        if let Some(d) = super::hubcfg::dispatch_debug(plan) { return d; } // hubcfg
         if plan["family"].as_str().unwrap_or("").starts_with("cluster_bootstrap") { return super::c05_cluster::run(plan, true).1; }
         let Ok(ops) = cfggen::ops_from_value(&plan["ops"]) else { return "bad plan".into() };
         let mut st = ConfigState::new();
